@@ -45,7 +45,7 @@ class Harness:
 
   # -- equivalence ----------------------------------------------------------------------
   def equiv(self, fnA, fnB, sym_args, assumptions=(), abstract_args=None, tol_note='', select=None,
-            compare=None):
+            compare=None, index_domain=None):
     """Prove fnA(*args) == fnB(*args) leaf by leaf, coordinate by coordinate.
     Returns list of counterexample dicts (model -> concrete args) for sat queries."""
     abstract_args = abstract_args or abstract_of(sym_args)
@@ -64,7 +64,8 @@ class Harness:
     while stack:
       script = stack.pop()
       try:
-        outA, pcs, decisions, closed = sj.run_symbolic(fnA, abstract_args, sym_args, ctx=ctx, script=script)
+        outA, pcs, decisions, closed = sj.run_symbolic(fnA, abstract_args, sym_args, ctx=ctx, script=script,
+                                                       index_domain=index_domain)
       except sj.Unsupported as e:
         self.run.ob(self.name + ':trace', 'error', detail='unsupported: %s' % e)
         return cexs
@@ -73,7 +74,8 @@ class Harness:
         self.run.ob(self.name + ':trace', 'error', detail='too many paths')
         return cexs
       for i in range(len(script), len(decisions)):
-        stack.append(tuple(decisions[:i]) + (not decisions[i],))
+        for alt in sj.alternatives(decisions[i], index_domain):
+          stack.append(tuple(decisions[:i]) + (alt,))
       base = list(assumptions) + ctx.all_facts() + [c for c in pcs]
       if pcs:
         st, _ = sj.check_sat(base, self.timeout)
@@ -90,7 +92,7 @@ class Harness:
           continue
         for idx in np.ndindex(*a.shape):
           goal = (compare or sj.same)(a[idx], b[idx])
-          nm = '%s%s%s[%s]' % (self.name, path, list(idx), ''.join('T' if d else 'F' for d in decisions))
+          nm = '%s%s%s[%s]' % (self.name, path, list(idx), ''.join(str(d[1]) if isinstance(d, tuple) else ('T' if d else 'F') for d in decisions))
           t = time.time()
           if not sj.is_z(goal):
             st, model = ('unsat', None) if goal else sj.check_sat(base, self.timeout)
